@@ -27,7 +27,24 @@ def lastOf (l : List Int) : Out := elemAt l (l.length - 1)
 /-- position clauses of `assert_iterator_in_range` -/
 def posClauses (s : St) (p : Int) : List (Key × Bool) := [(kItLo, 0 ≤ p), (kItHi, p ≤ s.size)]
 
+
 def withElems (s : St) (l : List Int) : St := { s with elems := l }
+
+def bbKey : Nat → Key | 0 => BS.kBBAt 0 | 1 => BS.kBBAt 1 | 2 => BS.kBBTest | 3 => BS.kBBSet | 4 => BS.kBBReset | _ => BS.kBBFlip
+def bbResult (s : St) : Nat → Nat → Out | 0, pos => elemAt s.elems pos | 2, pos => elemAt s.elems pos | _, _ => []
+def flipAt (s : St) (pos : Nat) : St := withElems s (setAt s.elems pos (1 - (s.elems[pos]?).getD 0))
+def bbPost (s : St) : Nat → Nat → Int → St
+  | 0, _, _ => s | 1, _, _ => s | 2, _, _ => s
+  | 3, pos, v => withElems s (setAt s.elems pos v)
+  | 4, pos, _ => withElems s (setAt s.elems pos 0)
+  | _, pos, _ => flipAt s pos
+def bsKey : Nat → Key | 0 => BS.kSet | 1 => BS.kReset | 2 => BS.kFlip | 3 => BS.kAt 0 | 4 => BS.kAt 1 | _ => BS.kTest
+def bsResult (s : St) : Nat → Nat → Out | 0, _ => [] | 1, _ => [] | 2, _ => [] | 3, _ => [] | _, pos => elemAt s.elems pos
+def bsPost (s : St) : Nat → Nat → Int → St
+  | 0, pos, v => withElems s (setAt s.elems pos v)
+  | 1, pos, _ => withElems s (setAt s.elems pos 0)
+  | 2, pos, _ => flipAt s pos
+  | _, _, _ => s
 
 def doc (cfg : Cfg) (s : St) : Op → Doc
   | .svAt i => ⟨[(kIndex, i < s.size)], fun _ => elemAt s.elems i, fun _ => s⟩
@@ -101,24 +118,8 @@ def doc (cfg : Cfg) (s : St) : Op → Doc
   | .expError k => ⟨[(OEV.kErr k, s.alt ≠ 0)], fun _ => elemAt s.elems 0, fun _ => s⟩
   | .varIdx k i => ⟨[(OEV.kVarIdx k, i = s.alt)], fun _ => elemAt s.elems 0, fun _ => s⟩
   | .varGet k i => ⟨[(OEV.kVarGet k, i = s.alt)], fun _ => elemAt s.elems 0, fun _ => s⟩
-  | .bb which pos v =>
-    let key := match which with | 0 => BS.kBBAt 0 | 1 => BS.kBBAt 1 | 2 => BS.kBBTest | 3 => BS.kBBSet | 4 => BS.kBBReset | _ => BS.kBBFlip
-    ⟨[(key, pos < s.size)], fun _ =>
-     (match which with | 0 | 2 => elemAt s.elems pos | _ => []), fun _ =>
-     (match which with
-      | 0 | 1 | 2 => s
-      | 3 => withElems s (setAt s.elems pos v)
-      | 4 => withElems s (setAt s.elems pos 0)
-      | _ => withElems s (setAt s.elems pos (1 - (s.elems[pos]?).getD 0)))⟩
-  | .bs which pos v =>
-    let key := match which with | 0 => BS.kSet | 1 => BS.kReset | 2 => BS.kFlip | 3 => BS.kAt 0 | 4 => BS.kAt 1 | _ => BS.kTest
-    ⟨[(key, pos < s.size)], fun _ =>
-     (match which with | 0 | 1 | 2 | 3 => [] | _ => elemAt s.elems pos), fun _ =>
-     (match which with
-      | 0 => withElems s (setAt s.elems pos v)
-      | 1 => withElems s (setAt s.elems pos 0)
-      | 2 => withElems s (setAt s.elems pos (1 - (s.elems[pos]?).getD 0))
-      | _ => s)⟩
+  | .bb which pos v => ⟨[(bbKey which, pos < s.size)], fun _ => bbResult s which pos, fun _ => bbPost s which pos v⟩
+  | .bs which pos v => ⟨[(bsKey which, pos < s.size)], fun _ => bsResult s which pos, fun _ => bsPost s which pos v⟩
   | .bsCtor pos n bits => ⟨[(BS.kCtor, pos ≤ s.size)], fun _ => ((s.elems.drop pos).take n).take bits, fun _ => s⟩
   | .bit which w pos => ⟨[(SC.kBit (SC.bitFns.getD which "test_bit") (if which == 3 then 1 else 0), pos < w)], fun _ => [], fun _ => s⟩
   | .divSat y => ⟨[(SC.kDiv, y ≠ 0)], fun _ => [], fun _ => s⟩
